@@ -132,7 +132,11 @@ def _native_worker(spec_module: str, cname: str, n: int, seed: int):
         # (pending worker coroutines of a stand-in runner are never started: no "never awaited" noise on stderr)
         warnings.filterwarnings("ignore", category=RuntimeWarning)
         from . import native
-        return native.search(spec_module, cname, n, seed, stop_at=5)
+        try:
+            return native.search(spec_module, cname, n, seed, stop_at=5)
+        finally:
+            import gc
+            gc.collect()  # never-started coroutines of stand-ins are finalised now, not at interpreter shutdown
     except Exception as e:
         return {"error": f"{e!r}\n{traceback.format_exc()[-1500:]}", "evaluations": 0, "failures": [], "skipped": 0,
                 "distinct": 0}
